@@ -353,6 +353,57 @@ def run_multi_session(ctx: Ctx, versions: list[tuple[int, int]]) -> None:
             sim.run_for(0.1)
 
 
+def run_two_clients(ctx: Ctx, va: tuple[int, int], vb: tuple[int, int]) -> None:
+    """TWO APIClient objects alive in one process, each with its own device and its own negotiated API version, used alternately with the
+    same service / entity keys: every request follows the version of the session it is sent on (nothing shared between the clients)."""
+    from aioesphomeapi import api_pb2 as pb
+
+    res = ctx.res
+    m = M()
+    T = m.UserServiceArgType
+    svc = m.UserService(name="svc", key=4242, args=[m.UserServiceArg(name="n", type=T.INT), m.UserServiceArg(name="s", type=T.STRING)])
+    with Sim() as sim:
+        pairs = []
+        for k, apiv in enumerate((va, vb)):
+            cfg = DeviceConfig(api_major=apiv[0], api_minor=apiv[1], name=f"dev{k}")
+            dev = sim.device(cfg, addresses=(f"10.0.{k}.1",))
+            cli = sim.client(f"10.0.{k}.1", keepalive=1e5)
+            c = sim.call("connect", lambda cli=cli: cli.connect(login=False))
+            sim.run(until=lambda: c.done, max_time=sim.clock + 50)
+            if c.outcome != "ok":
+                res.inconclusive.append(f"two-clients connect failed: {c.exc!r}")
+                return
+            pairs.append((cli, dev, apiv))
+        for rnd in range(3):
+            for k in ((0, 1) if rnd % 2 == 0 else (1, 0)):
+                cli, dev, apiv = pairs[k]
+                shim = type("S", (), {"dev": dev, "cli": cli, "last": lambda self, n0, dev=dev: dev.conn.received[n0:]})()
+                n0 = len(dev.conn.received)
+                cli.execute_service(svc, {"n": 7 + rnd, "s": "x"})
+                exp = pb.ExecuteServiceRequest(key=4242)
+                setattr(exp.args.add(), "int_" if apiv >= (1, 3) else "legacy_int", 7 + rnd)
+                exp.args.add().string_ = "x"
+                new = dev.conn.received[n0:]
+                res.evaluations += 1
+                res.count("calls/two-clients/execute_service")
+                res.sig("two-clients", "execute_service", rnd, k, va, vb)
+                case = {"method": "execute_service", "two_clients": [list(va), list(vb)], "client": k, "api_version": list(apiv)}
+                if len(new) != 1 or new[0]["msg"] != exp:
+                    res.violation("C15/execute_service/arguments/two-clients", f"client {k} @api {apiv} next to a client @api {pairs[1 - k][2]}: decoded "
+                                  f"{str(new[0]['msg'] if new else None)[:120]!r} != expected {str(exp)[:120]!r}", case)
+                other_n0 = len(pairs[1 - k][1].conn.received)
+                for method, supplied in (("cover_command", {"position": 1.0}), ("cover_command", {"position": 0.5, "tilt": 0.25}), ("cover_command", {"stop": True}),
+                                         ("climate_command", {"preset": m.ClimatePreset.AWAY}), ("light_command", {"state": True, "brightness": 0.5}),
+                                         ("fan_command", {"state": True, "speed_level": 2})):
+                    expq = expected_request(method, 77, supplied, {}, apiv)
+                    n0 = len(dev.conn.received)
+                    getattr(cli, method)(77, **supplied)
+                    judge(ctx, shim, n0, method, expq, supplied, {}, "two-clients", apiv, "plain")
+                if len(pairs[1 - k][1].conn.received) != other_n0:
+                    res.violation("C15/request-on-the-other-clients-session", f"commands on client {k} produced {len(pairs[1 - k][1].conn.received) - other_n0} "
+                                  "requests at the OTHER client's device", case)
+
+
 def shard(ctx: Ctx) -> None:
     from vf.sim import device as _device
 
@@ -361,6 +412,9 @@ def shard(ctx: Ctx) -> None:
         orders = [[(1, 2), (1, 10), (1, 0), (1, 5), (1, 4), (2, 0)], [(1, 10), (1, 2), (1, 10)], [(1, 0), (1, 1), (1, 0)], [(1, 4), (1, 5), (1, 4), (2, 1)],
                   [(2, 0), (1, 2), (2, 5), (1, 3)], [(1, 3), (1, 2), (1, 3), (1, 2)]]
         run_multi_session(ctx, orders[ctx.shard])
+    two = [((1, 2), (1, 10)), ((1, 10), (1, 2)), ((1, 0), (1, 5)), ((1, 4), (1, 5)), ((2, 0), (1, 1)), ((1, 10), (1, 10))]
+    if 6 <= ctx.shard < 12 or ctx.nshards < 12:
+        run_two_clients(ctx, *two[ctx.shard % 6])
     all_methods = list(REQUEST) + list(FIXED)
     thr = ctx.thorough
     # current API: everything, every subset
